@@ -8,7 +8,7 @@
 
 use std::ops::{AddAssign, MulAssign, SubAssign};
 
-use ff::{BatchInvert, Field, PrimeField};
+use ff::{BatchInvert, PrimeField};
 use num_bigint::BigUint;
 use num_traits::{One, Zero};
 use proptest::prelude::*;
@@ -675,7 +675,7 @@ where
     );
 }
 
-#[path = "c10_towers.rs"]
+#[path = "../c10_towers_impl.rs"]
 mod towers;
 
 fn main() {
